@@ -90,6 +90,16 @@ SimRefresh(s) ==
   LET h == H(s + 110) IN
   DOMAIN st # {} /\ DoPublish(Mk(Sel(Q(DOMAIN st), h, 1), "if_new_refresh", NoCas, 0, "", h))
 
+\* a write that carries an idempotency key (repeats inside the result TTL, after it, after Clear)
+SimIdem(s) ==
+  LET h == H(s + 120)
+      a == FreeArgs(h)
+      ik == Sel(Q(IdemKeys \ {""}), h, 13)
+  IN IdemKeys \ {""} # {} /\
+     IF (h \div 3) % 4 = 0
+       THEN RemoveKey(a.k, NoCas, ik, Sel(Q(IdemTTLs), h, 31))
+       ELSE DoPublish([a EXCEPT !.ik = ik, !.ittl = Sel(Q(IdemTTLs), h, 31), !.cas = NoCas, !.km = IF (h \div 5) % 3 = 0 THEN a.km ELSE ""])
+
 SimRemove(s) ==
   LET h == H(s + 130)
       ik == IF (h \div 7) % 3 = 0 THEN Sel(Q(IdemKeys), h, 13) ELSE ""
@@ -127,11 +137,12 @@ SimNext ==
   \/ \E s \in 1..2 : SimMulti(s) /\ w' = s
   \/ \E s \in 1..1 : SimVersioned(s) /\ w' = s
   \/ \E s \in 1..2 : SimRefresh(s) /\ w' = s
+  \/ \E s \in 1..1 : SimIdem(s) /\ w' = s
   \/ \E s \in 1..1 : SimRemove(s) /\ w' = s
   \/ \E s \in 1..1 : SimRemoveHit(s) /\ w' = s
   \/ \E s \in 1..2 : SimReadState(s) /\ w' = s
   \/ \E s \in 1..1 : SimReadStream(s) /\ w' = s
-  \/ (H(7) % 5 = 0) /\ Clear /\ w' = 0
+  \/ ((H(7) % 5 = 0) \/ (DOMAIN idem # {} /\ H(7) % 2 = 0)) /\ Clear /\ w' = 0
 
 SimSpec == Init /\ w = 0 /\ [][SimNext]_simvars
 =============================================================================
